@@ -874,12 +874,27 @@ func (c *checker) compareMappings(s spec, stage string, m, m2 *mapping.IndexMapp
 		}
 		detail := "[" + stage + "] " + strings.Join(det, " || ")
 		if root != "" {
-			c.report(s, b1, "changed", root, "", detail, doc)
+			c.report(s, b1, "changed", abstractRoot(root), "", detail, doc)
 		} else {
 			c.report(s, b1, strings.TrimPrefix(stage, "strict:")+"/"+found[0].kind, "", found[0].aspect, detail, doc)
 		}
 	}
 	return ok, nfields
+}
+
+// abstractRoot drops where in the tree of document mappings a key sits: one class per kind of key.
+func abstractRoot(p string) string {
+	p = strings.ReplaceAll(p, ".properties.*", "")
+	p = strings.ReplaceAll(p, ".Properties.*", "")
+	for _, pre := range []string{".default_mapping", ".types.*", ".DefaultMapping", ".TypeMapping.*"} {
+		if strings.HasPrefix(p, pre) {
+			return "<document mapping>" + p[len(pre):]
+		}
+		if strings.HasPrefix(p, "tree"+pre) {
+			return "tree<document mapping>" + p[len("tree"+pre):]
+		}
+	}
+	return p
 }
 
 // checkOne evaluates one spec; returns the mapping and its JSON when valid.
@@ -1061,7 +1076,7 @@ func (c *checker) diskCycle(s spec, m *mapping.IndexMappingImpl, b1 []byte) {
 				good = false
 				continue
 			}
-			if va != vb {
+			if va != vb && good { // when the mappings already differ this is a consequence, not a new class
 				c.report(s, b1, "reopen/stored-document-differs", "", "", fmt.Sprintf("doc %s stored before close:\n%s\nstored after reopen:\n%s", d.name, clip(va), clip(vb)), &c.docs[i])
 				good = false
 			}
